@@ -70,6 +70,7 @@ structure MState where
   tls : Array (Option Tok) := Array.replicate nTls none
   full : Bool := false
   started : Bool := false
+  ghost : Std.HashSet Nat := {}   -- full mode: targets of Tuples / ProbeMs that became garbage (may not be deleted by hand: KF-C01-dangling-tuple-item)
   minId : Option Nat := none      -- lowest / highest object ever registered: gc->minptr / gc->maxptr
   maxId : Option Nat := none
   -- statistics (driver's `S` line)
@@ -157,7 +158,11 @@ def MState.markedIds (st : MState) (useSlots : Bool) (words : List Word) : List 
 def MState.checkpoint (st : MState) : MState × List Nat :=
   let (live, _) := st.markedIds true []
   let liveSet : Std.HashSet Nat := Std.HashSet.ofList live
-  ({ st with objs := st.objs.filter (fun i _ => liveSet.contains i) }, live)
+  let ghost := st.objs.fold (fun g i o =>
+    if !liveSet.contains i && (o.kind = .H || o.kind = .M) then
+      o.el.foldl (fun g t => match t with | .obj j => if j < maxObj then g.insert j else g | _ => g) g
+    else g) st.ghost
+  ({ st with objs := st.objs.filter (fun i _ => liveSet.contains i), ghost }, live)
 
 def parseNatDigits (s : String) : Option Nat :=
   if s.isEmpty then none else if s.all Char.isDigit then s.toNat? else none
@@ -281,10 +286,27 @@ def MState.step (st : MState) (w : List String) : MState × List String :=
           | some t =>
             match st.objs[t]? with
             | some ot =>
-              if st.owned t || ot.kind = .B || ot.root || st.hasIncoming t slot then bad st else go 1 (some t)
+              if st.owned t || st.ghost.contains t || ot.kind = .B || ot.root || st.hasIncoming t slot then bad st else go 1 (some t)
             | none => bad st
           | none => bad st
         | _ => if arg ≠ "-" then bad st else go (if kind = .M then 4 else if kind = .R then 1 else 0) none
+      | _, _, _ => bad st
+    | _ => bad st
+  | "pair" :: args =>
+    let st := { st with started := true }
+    match args with
+    | [ias, ibs, wh] =>
+      match (parseLong ias).bind natOf, (parseLong ibs).bind natOf, parseWhere wh with
+      | some ia, some ib, some slot =>
+        if ia ≥ maxObj || ib ≥ maxObj || ia = ib || st.used.contains ia || st.used.contains ib then bad st
+        else if st.full && slot.isNone then bad st
+        else
+          let full := st.full
+          let (s1, _) := ({ st with full := false }).doNew ia .R 1 false none none
+          let (s2, _) := s1.doNew ib .R 1 false none slot
+          let s3 := { (s2.link ib ia) with full := full }
+          let (s4, live) := if full then s3.checkpoint else (s3, [])
+          (s4, [if full then s!"O pair {ia} {ib} live={setText live}" else s!"O pair {ia} {ib}"])
       | _, _, _ => bad st
     | _ => bad st
   | ["store", ids, slots, toks] =>
@@ -376,7 +398,7 @@ def MState.step (st : MState) (w : List String) : MState × List String :=
   | ["del", ids] =>
     match (parseLong ids).bind natOf with
     | some id =>
-      if !st.usable id || st.hasIncoming id none then bad st
+      if !st.usable id || st.hasIncoming id none || st.ghost.contains id then bad st
       else
         let (st', n) := st.del id (st.objs.size + 1)
         (st', [s!"O del {n}"])
@@ -440,6 +462,7 @@ def MState.step (st : MState) (w : List String) : MState × List String :=
       if n < 1 || n > 50000000 || !(kind = .R ∨ kind = .P ∨ kind = .A ∨ kind = .H) then bad st
       else (st, [s!"O deepchild {n}"])
     | _, _ => bad st
+  | ["danglechild", k] => if k = "H" || k = "M" then (st, [s!"O danglechild {k}"]) else bad st
   | _ => bad st
 
 end Cello.Heap
